@@ -45,6 +45,13 @@ JudgeMono(c) ==
     /\ \A k \in 1..(Len(c.v) - 1) : Chk(c.v[k] <= c.v[k + 1] + c.tol, c, c.prop \o " values are not monotone in the level", k)
     /\ \A k \in 1..c.nfloor : Chk(Near(c.v[k], c.floor, c.tol), c, c.prop \o " value at or below the lowest knot is not the minimum", k)
     /\ \A k \in 1..Len(c.pairs) : Chk(c.pairs[k][1] = c.pairs[k][2], c, c.prop \o " scalar and array arguments give different values", k)
+    \* segment identity (C15): between two levels of one log-linear segment of slope s, the increase of T is
+    \* (K(x2) - K(x1)) / s -- recorded as <<increase of T, that quotient>> in the case's fixed point
+    /\ IF "incr" \in DOMAIN c
+       THEN \A k \in 1..Len(c.incr) :
+              Chk(Near(c.incr[k][1], c.incr[k][2], c.tolI), c,
+                  c.prop \o " the increase between two levels is not the integral of the conductivity between them", k)
+       ELSE TRUE
 
 JudgeSame(c) ==
     \A k \in 1..Len(c.u) : Chk(Near(c.u[k] - c.u[1], c.w[k] - c.w[1], c.tol), c,
